@@ -337,8 +337,11 @@ func vC04CaseHist(out *vC04Out, r *rand.Rand) {
 				if tt := vC04ReplyTTLs(msg); len(tt) > 0 {
 					ttl = int64(tt[0])
 					for _, x := range tt {
-						if int64(x) != ttl {
+						if int64(x) != int64(tt[0]) {
 							fail = "records of one entry carry different TTLs"
+						}
+						if int64(x) > ttl {
+							ttl = int64(x) // judge the largest TTL shown
 						}
 					}
 				} else {
@@ -355,8 +358,11 @@ func vC04CaseHist(out *vC04Out, r *rand.Rand) {
 				if len(tt) > 0 {
 					ttl = int64(tt[0])
 					for _, x := range tt {
-						if int64(x) != ttl {
+						if int64(x) != int64(tt[0]) {
 							fail = "records of one entry carry different TTLs"
+						}
+						if int64(x) > ttl {
+							ttl = int64(x) // judge the largest TTL shown
 						}
 					}
 				} else {
